@@ -24,20 +24,20 @@ CLAIM = {
             "knots, is affine between consecutive knots, continues the end segments outside, adjacent pieces meet; "
             "argument dispatch returns results shaped like the query; constant/linear/polynomial integrals are "
             "antisymmetric, additive and consistent with the property values (trapezoid/midpoint exactness, formal "
-            "derivative of polyint); the interpolated property's integral is antisymmetric and equals the trapezoid of "
-            "its end values - additive inside one segment, refuted across a knot; mass fractions sum to one, mass<->"
+            "derivative of polyint); the interpolated property's integral F(upper)-F(lower) with the exact antiderivative "
+            "(cumulative trapezoids + partial segment) is antisymmetric, additive for all limits and, inside any piece "
+            "incl. the extrapolated ends, equal to the exact integral of the property; mass fractions sum to one, mass<->"
             "molar conversion is inverse and the two molar-mass forms agree, mixture density/heat capacity/molar mass/"
             "viscosity lie within component bounds for any number of components; pump lift >= 0, = 0 for reverse "
             "flow, = regression polynomial otherwise, array branch = map of scalar branch. Finite facts decided by "
             "vm_compute on the regenerated library data: all tables strictly increasing, knot values reproduced, "
-            "compressibility slope = stored derivative (refuted for hydrogen), heating values, pump and pipe tables "
+            "compressibility slope = stored derivative, heating values, pump and pipe tables "
             "well-formed. The scalar formulas and all data are regenerated from /repo each run; the hand model is "
             "tied to the running classes by an exact (tolerance-free) correspondence on dyadic data.",
     "note": "All theorems are closed under the global context (no axioms). Oracles: scipy interp1d (its documented "
             "linear/extrapolate contract is the model `interp`), np.polyfit (regression coefficients are inputs of the "
             "model; library pumps are compared with an exact rational least-squares fit at 1e-9), np.sqrt and x**1.5 "
-            "(inputs). Partial: interextra additivity only within one segment (refuted across knots - known finding); "
-            "compressibility consistency refuted for hydrogen (known finding); library data are decimal, so library "
+            "(inputs); the array code of _antiderivative is H-modelled (statements pinned by the translator). Library data are decimal, so library "
             "queries are compared at 1e-12 relative (monitor), exactness is shown on dyadic custom properties. "
             "std_type_reaches_pipe_unchanged is a monitor (with C16).",
     "technique": "Coq proof over generated kernels and generated library data + hand model tied by exact correspondence",
@@ -633,7 +633,7 @@ def monitor_pipe_types(ctx):
         "  match find (fun s => String.eqb (s_name s) (fst c)) pipe_library with\n"
         "  | None => false\n"
         "  | Some s => Nat.eqb (length (snd c)) 4 && forallb (fun p => cell_matches (created_cell create_pipe_std_columns "
-        "retrieve_u_writes (fst p) s) (snd p)) (combine std_columns (snd c)) end.\n"
+        "retrieve_u_writes retrieve_u_default (fst p) s) (snd p)) (combine std_columns (snd c)) end.\n"
         "Eval vm_compute in (summary (map ok cs)).\nEval vm_compute in (map ok cs).\n" % ";\n".join(cases))
     trip, out = ctx.coq_counts(txt, "pipe_types")
     if not trip:
@@ -664,18 +664,28 @@ def monitor_laws(ctx):
     from pandapipes.properties.fluids import FluidPropertyInterExtra
     nl, table, data = tf.read_fluid_library()
     rng = ctx.rng
-    # replay of the Coq witness interextra_integral_additive_refuted on the class itself (exact)
+    # the former counterexample of additivity (limits 2, 1, 0 across the knot 1), exact
     p = FluidPropertyInterExtra([0., 1., 2.], [0., 0., 2.])
-    lhs = float(p.get_at_integral_value(2., 1.)) + float(p.get_at_integral_value(1., 0.))
-    rhs = float(p.get_at_integral_value(2., 0.))
-    if lhs != rhs:
+    got = [float(p.get_at_integral_value(2., 1.)), float(p.get_at_integral_value(1., 0.)), float(p.get_at_integral_value(2., 0.)),
+           float(p.get_at_integral_value(4., -2.))]
+    if got != [1.0, 0.0, 1.0, 9.0]:
         ctx.violation({"fn": "FluidPropertyInterExtra.get_at_integral_value", "clause": "additive", "needs": "limits straddle a knot"},
-                      "I(2,1) + I(1,0) = %s but I(2,0) = %s for the table (0,0),(1,0),(2,2): the integral is the trapezoid of "
-                      "the two end values, not the integral of the piecewise-linear property" % (lhs, rhs),
-                      {"table": [[0, 0], [1, 0], [2, 2]], "limits": [2, 1, 0]})
-    else:
-        ctx.broken("refuted-witness", "interextra_integral_additive_refuted no longer reproduces on the implementation",
-                   "I(2,1)+I(1,0) == I(2,0) on the running code while the generated formula refutes it")
+                      "table (0,0),(1,0),(2,2): I(2,1), I(1,0), I(2,0), I(4,-2) = %s; the integral of the piecewise-linear "
+                      "property is 1, 0, 1, 9" % got, {"table": [[0, 0], [1, 0], [2, 2]], "limits": [2, 1, 0]})
+
+    def exact_integral(rows, a, b):
+        """integral from b to a of the piecewise-linear, linearly extrapolated table, in exact rationals
+        (independent of the generated formulas and of the Coq model)"""
+        xs = [r[0] for r in rows]
+
+        def f(x):
+            i = max(1, min(len(xs) - 1, next((k for k, v in enumerate(xs) if x <= v), len(xs))))
+            (x0, y0), (x1, y1) = rows[i - 1], rows[i]
+            return y0 + (y1 - y0) / (x1 - x0) * (x - x0)
+        lo, hi = min(a, b), max(a, b)
+        pts = [lo] + [x for x in xs if lo < x < hi] + [hi]
+        tot = sum((f(u) + f(v)) / 2 * (v - u) for u, v in zip(pts, pts[1:]))
+        return tot if a >= b else -tot
     for fl in nl["_LIQUIDS"] + nl["_GASES"]:
         fluid = pandapipes.call_lib(fl)
         for prop in ("heat_capacity", "density", "viscosity"):
@@ -690,11 +700,11 @@ def monitor_laws(ctx):
                     ctx.violation({"fn": "FluidPropertyInterExtra.get_at_integral_value", "clause": "antisymmetric", "fluid": fl},
                                   "%s.%s: I(%r, %r) = %r but I(%r, %r) = %r (sum %r, must be 0)"
                                   % (fl, prop, a, b, iab, b, a, iba, iab + iba), {"fluid": fl, "prop": prop, "limits": [a, b]})
-                # consistent with the property values: trapezoid of the end values
-                trap = (float(obj.get_at_value(a)) + float(obj.get_at_value(b))) / 2 * (a - b)
-                if abs(iab - trap) > 1e-12 * scale:
+                # consistent with the property values: exact integral of the tabulated piecewise-linear function
+                ref = float(exact_integral(data[fl][prop], Fr(a), Fr(b)))
+                if abs(iab - ref) > 1e-11 * scale:
                     ctx.violation({"fn": "FluidPropertyInterExtra.get_at_integral_value", "clause": "consistent", "fluid": fl},
-                                  "%s.%s: I(%r, %r) = %r, trapezoid of the end values %r" % (fl, prop, a, b, iab, trap),
+                                  "%s.%s: I(%r, %r) = %r, exact integral of the tabulated property %r" % (fl, prop, a, b, iab, ref),
                                   {"fluid": fl, "prop": prop, "limits": [a, b]})
                 # vector limits = element-wise
                 vec = obj.get_at_integral_value(np.array([a, b]), np.array([b, a]))
@@ -704,7 +714,8 @@ def monitor_laws(ctx):
                                   {"fluid": fl, "prop": prop, "limits": [a, b]})
             # additivity across a knot on library data (same law as the Coq witness)
             k = rng.randrange(1, len(xs) - 1)
-            a, m, b = xs[k + 1], xs[k], xs[k - 1]
+            a, m, b = rng.choice([(xs[k + 1], xs[k], xs[k - 1]), (xs[-1] + 7.5, xs[k] + 0.25, xs[0] - 3.0),
+                                  (xs[0] - 1.0, xs[-1] + 2.0, xs[k])])
             lhs = float(obj.get_at_integral_value(a, m)) + float(obj.get_at_integral_value(m, b))
             rhs = float(obj.get_at_integral_value(a, b))
             if abs(lhs - rhs) > 1e-12 * scale:
@@ -776,10 +787,10 @@ def monitor_list_limits(ctx):
     from pandapipes.properties.fluids import FluidPropertyInterExtra
     p = FluidPropertyInterExtra([0., 1., 2.], [0., 1., 4.])
     r = call(p.get_at_integral_value, [2.0, 1.5], [1.0, 0.5])
-    exp = ("v", [Fr(5, 2), Fr(3, 2)])
+    exp = ("v", [Fr(5, 2), Fr(5, 4)])
     if r != exp:
         ctx.violation({"fn": "FluidPropertyInterExtra.get_at_integral_value", "clause": "shape", "arg_form": "list/list"},
-                      "limits given as lists (documented: 'float or list-like objects'): %s; expected [2.5, 1.5]"
+                      "limits given as lists (documented: 'float or list-like objects'): %s; expected [2.5, 1.25]"
                       % (r[1] if r[0] == "e" else [float(v) for v in r[1]]),
                       {"table": [[0, 0], [1, 1], [2, 4]], "upper": [2.0, 1.5], "lower": [1.0, 0.5]})
 
